@@ -149,7 +149,7 @@ Definition source_new_filename (open_ok : bool) (f : list Z) : option source :=
   if open_ok then Some (mkSrc (RFile true f 0) 0 0 0 false None) else None.
 Definition source_new_filefile (f : list Z) (pos : Z) : source := mkSrc (RFile false f pos) 0 0 0 false None.
 
-(* the tail of sc_io_source_read after the type switch (lines 409-425) *)
+(* the tail of sc_io_source_read after the type switch (lines 413-429) *)
 Definition read_finish (s : source) (n : Z) (wc retval : bool) (k : Z) (data : option (list Z))
   : source * Z * option Z * option (list Z) :=
   if retval then (s, E_FATAL, None, data)
@@ -159,10 +159,16 @@ Definition read_finish (s : source) (n : Z) (wc retval : bool) (k : Z) (data : o
 
 (* sc_io_source_read (source, data, n, bytes_out): data = Some u is the caller's buffer of n bytes
    (None: data == NULL), wc = (bytes_out != NULL).  Result: state, code, *bytes_out if stored,
-   the caller's buffer afterwards. *)
+   the caller's buffer afterwards.
+   The early return (lines 341-351, with the repair 103c295): nothing is asked, or the end has been
+   registered by an earlier call - *bytes_out = 0 if the pointer is given; without the pointer a
+   request of n > 0 bytes cannot be met and is FATAL (nothing stored, nothing copied, state unchanged). *)
 Definition source_read (junk : Z -> Z) (s : source) (n : Z) (data : option (list Z)) (wc : bool) (flt : fault)
   : source * Z * option Z * option (list Z) :=
-  if (n =? 0) || r_eof s then (s, E_NONE, if wc then Some 0 else None, data) else
+  if (n =? 0) || r_eof s then
+    (if wc then (s, E_NONE, Some 0, data)
+     else if 0 <? n then (s, E_FATAL, None, data)
+     else (s, E_NONE, None, data)) else
   match r_dev s with
   | RBuf a =>
       let total := a_cnt a * a_esz a in
